@@ -1,6 +1,7 @@
 package main
 
 import (
+	"bytes"
 	"fmt"
 	"io"
 	"math/rand"
@@ -20,6 +21,7 @@ func genC05(rng *rand.Rand, n int, emit func(Case), dist map[string]int) {
 	for it := 0; it < n; it++ {
 		e := echo.New()
 		e.Logger.SetOutput(io.Discard)
+		e.Renderer = c05Renderer{}
 		e.Use(middleware.RecoverWithConfig(middleware.RecoverConfig{DisablePrintStack: true}))
 		type reqState struct {
 			id       int
@@ -32,6 +34,7 @@ func genC05(rng *rand.Rand, n int, emit func(Case), dist map[string]int) {
 			observed bool
 			fired    []int
 			restChk  bool
+			body     []byte
 		}
 		var cur *reqState
 		hookOwner := map[int]int{}
@@ -98,6 +101,7 @@ func genC05(rng *rand.Rand, n int, emit func(Case), dist map[string]int) {
 		})
 		routeParams := map[int][]string{}
 		nroutes := 0
+		var nilRoutes []int
 		addRoute := func(k int) {
 			nroutes++
 			hid := nroutes
@@ -141,6 +145,18 @@ func genC05(rng *rand.Rand, n int, emit func(Case), dist map[string]int) {
 				e.ReleaseContext(ac)
 				dist["acquire_release_between_requests"]++
 			}
+			if rng.Intn(10) == 0 {
+				// a route WITHOUT handler registered through the public router API (echo only logs it): its nodes exist,
+				// later requests walk through its parameters and must get a plain 404
+				np := 1 + rng.Intn(6)
+				p := fmt.Sprintf("/api/nh%d", len(nilRoutes))
+				for i := 0; i < np; i++ {
+					p += fmt.Sprintf("/:n%d", i)
+				}
+				e.Router().Add("GET", p, nil)
+				nilRoutes = append(nilRoutes, np)
+				dist["nil_handler_routes"]++
+			}
 			if rng.Intn(4) == 0 {
 				addRoute(rng.Intn(5)) // a registration at a quiescent point; may raise maxParam
 				registrations++
@@ -168,6 +184,13 @@ func genC05(rng *rand.Rand, n int, emit func(Case), dist map[string]int) {
 					pat += "/:" + nm
 				}
 				match = L(I(hid), S(pat), LS(names), LS(vals))
+			} else if len(nilRoutes) > 0 && rng.Intn(2) == 0 {
+				i := rng.Intn(len(nilRoutes))
+				path = fmt.Sprintf("/api/nh%d", i)
+				for j := 0; j < nilRoutes[i]; j++ {
+					path += fmt.Sprintf("/w%d_%d", st.id, j)
+				}
+				dist["requests_into_nil_handler_route"]++
 			} else {
 				path = []string{"/health", "/api/zz", "/apx", "/"}[rng.Intn(4)]
 			}
@@ -175,7 +198,7 @@ func genC05(rng *rand.Rand, n int, emit func(Case), dist map[string]int) {
 			var steps []func(c echo.Context)
 			wrote := false
 			for j := rng.Intn(6); j > 0; j-- {
-				switch rng.Intn(10) {
+				switch rng.Intn(11) {
 				case 0, 1:
 					key, v := fmt.Sprintf("k%d", rng.Intn(4)), fmt.Sprintf("val%d", st.id)
 					keys = append(keys, key)
@@ -256,9 +279,31 @@ func genC05(rng *rand.Rand, n int, emit func(Case), dist map[string]int) {
 					steps = append(steps, func(c echo.Context) { c.Response().WriteHeader(code) })
 					st.prog = append(st.prog, L(I(8), I(code)))
 					wrote = true
+				case 9:
+					// c.Render through the configured Renderer; a template may fail after it produced part of its output
+					name := fmt.Sprintf("tpl%d", st.id)
+					if rng.Intn(2) == 0 {
+						name = "bad" + name
+						steps = append(steps, func(c echo.Context) { c.Render(200, name, nil) })
+						dist["render_failing_midway"]++
+						break // nothing reaches the response: no step for the model
+					}
+					page := []byte("<page " + name + ">")
+					steps = append(steps, func(c echo.Context) {
+						if c.Render(200, name, nil) == nil {
+							cur.body = append(cur.body, page...)
+						}
+					})
+					st.prog = append(st.prog, L(I(9), I(len(page))))
+					wrote = true
+					dist["render_ok"]++
 				default:
 					sz := 1 + rng.Intn(9)
-					steps = append(steps, func(c echo.Context) { c.Response().Write(make([]byte, sz)) })
+					chunk := bytes.Repeat([]byte{byte('a' + st.id%26)}, sz)
+					steps = append(steps, func(c echo.Context) {
+						c.Response().Write(chunk)
+						cur.body = append(cur.body, chunk...)
+					})
 					st.prog = append(st.prog, L(I(9), I(sz)))
 					wrote = true
 				}
@@ -315,6 +360,10 @@ func genC05(rng *rand.Rand, n int, emit func(Case), dist map[string]int) {
 					ok, why = false, fmt.Sprintf("after request %d the caller's slice passed to SetParamValues earlier reads %q instead of %q: the context kept and rewrote it while serving other requests", st.id, callerOwned[i], callerCopy[i])
 				}
 			}
+			// the response starts with exactly what THIS request's handler wrote and rendered
+			if ok && !bytes.HasPrefix(rec.Body.Bytes(), st.body) {
+				ok, why = false, fmt.Sprintf("request %d (%s) wrote and rendered %q but its response body is %q", st.id, path, st.body, rec.Body.Bytes())
+			}
 			if hid == 0 && rec.Code != 404 && ok {
 				ok, why = false, fmt.Sprintf("unmatched request %s answered %d", path, rec.Code)
 			}
@@ -344,4 +393,17 @@ func genC05(rng *rand.Rand, n int, emit func(Case), dist map[string]int) {
 		emit(cs)
 		_ = strings.Join
 	}
+}
+
+// c05Renderer: "bad..." templates fail after they produced part of their output (what html/template does on an
+// execution error)
+type c05Renderer struct{}
+
+func (c05Renderer) Render(w io.Writer, name string, data interface{}, c echo.Context) error {
+	if strings.HasPrefix(name, "bad") {
+		io.WriteString(w, "<partial "+name)
+		return fmt.Errorf("template %s: execution failed", name)
+	}
+	_, err := io.WriteString(w, "<page "+name+">")
+	return err
 }
